@@ -76,8 +76,10 @@ func main() {
 		probeViewsMain()
 	case "c17-globals":
 		c17GlobalsMain()
+	case "probe-dtypes":
+		probeDtypesMain()
 	case "c17-subjects":
-		for _, s := range historySubjects(true) {
+		for _, s := range c17AllSubjects(true) {
 			fmt.Println(s.Name)
 		}
 	case "c17-cold":
